@@ -182,6 +182,13 @@ def generate(rng, tier, idx):
     subj = _subject(rng)
     kind = subj['kind']
     use_pristine = rng.random() < 0.5
+    if idx % 4 == 1:
+        # a model seeded at construction: its stream belongs to sampling, a fit neither reads
+        # nor moves it
+        subj['ctor'].setdefault('random_state', 1000 + idx % 7)
+        if subj['cls'] == zoo.UNI_WRAPPER and isinstance(subj['ctor'].get('candidates'), list) \
+                and 'switch' not in subj['ctor']['candidates'] and idx % 8 == 1:
+            subj['ctor'].setdefault('selection_sample_size', 20)
     if rng.random() < 0.35:
         subj['pos'] = rng.choice([1, 2])
         if zoo.short(subj['cls']) in ('GaussianKDE', 'TruncatedGaussian', 'GaussianMultivariate') \
@@ -290,6 +297,36 @@ def _make_data(spec):
     if k == 'table' and spec.get('container') == 'ndarray':
         return data.to_numpy().copy()        # the caller's own, writable array
     return data
+
+
+def _check_log_density(ctx, model, subj, data, cond):
+    """O5 at a place no allocator seam reaches (the output buffer of a masked ufunc): the log
+    density is the logarithm of the density in every row, also where the density underflows
+    to 0 (-inf) or is undefined (nan) - never whatever the buffer held before."""
+    rows = data.iloc[:3].to_numpy(dtype=float) if isinstance(data, pd.DataFrame) \
+        else np.asarray(data[:3], dtype=float)
+    far = rows.copy()
+    far[:, 0] = far[:, 0] * 1e3 + 1e7            # hopeless rows: density 0 (or undefined)
+    far[1:, -1] = -far[1:, -1] * 1e3 - 1e7
+    X = np.vstack([rows, far])
+    cols = getattr(model, 'columns', None)
+    Xq = pd.DataFrame(X, columns=cols) if cols is not None and len(cols) == X.shape[1] else X
+    with sterile(9):
+        dens = outcome(model.probability_density, Xq)
+    with sterile(9):
+        logd = outcome(model.log_probability_density, Xq)
+    if dens[0] != 'ok' or logd[0] != 'ok':
+        return
+    ctx.stats['log_density_checks'] += 1
+    with np.errstate(all='ignore'):
+        want = np.log(np.asarray(dens[1], dtype=float))
+    got = np.asarray(logd[1], dtype=float)
+    if np.any(np.asarray(dens[1]) == 0):
+        ctx.probes['zero_density_row_queried'] += 1
+    if got.shape != want.shape or not np.array_equal(got, want, equal_nan=True):
+        ctx.violate('O5_log_density_is_log_of_density', _subject_name(subj, 'log_probability_density'),
+                    'density %s, log density %s' % (np.asarray(dens[1]).tolist(), got.tolist()),
+                    **cond)
 
 
 def _decode_ctor(ctor):
@@ -554,6 +591,8 @@ def _execute(run, ctx, subj, kind, cls_short, pristine):
             elif out_l[0] == 'ok':
                 n_fit_ok += 1
                 last_good = op['data']
+                if kind == 'gmv':
+                    _check_log_density(ctx, live, subj, data, cond)
                 if op.get('scribble') and hasattr(data, 'shape'):
                     # the caller re-uses its training buffer for something else: the fitted
                     # model must not follow (its state depends on X as it was at fit time)
